@@ -10,6 +10,7 @@ import (
 	"sort"
 	"strings"
 	"sync"
+	"time"
 
 	"github.com/evanw/esbuild/pkg/verifsim"
 	"github.com/evanw/esbuild/pkg/verifsvc"
@@ -172,6 +173,7 @@ type svcClient struct {
 	svcRequests int
 	disposedAck map[int]bool
 	ctxReady    map[int]bool // the response to the context-creating build request has arrived
+	root        string
 }
 
 func (c *svcClient) fail(class, f string, a ...interface{}) {
@@ -253,6 +255,13 @@ func (c *svcClient) handle(b []byte) {
 			}
 		case "on-resolve", "on-load":
 			resp = map[string]interface{}{}
+			if cmd == "on-load" && !c.closed && c.g.n(5) == 0 {
+				// re-enter the API from within a callback: ask the service to resolve a path
+				if key, ok := m["key"].(int); ok {
+					c.request("resolve-reentrant", map[string]interface{}{"command": "resolve", "key": key, "path": "./src/m0", "pluginName": "hostplugin",
+						"importer": "", "namespace": "file", "resolveDir": c.root, "kind": "import-statement", "with": map[string]interface{}{}})
+				}
+			}
 		case "ping":
 			resp = map[string]interface{}{}
 		default:
@@ -369,7 +378,7 @@ func scenarioC20Service(rc *RunCtx) *Violation {
 	p.WriteTo(d, false)
 	abrupt := g.n(4) == 0 // close stdin at an arbitrary point instead of gracefully
 	st := &verifsim.Stdio{Frag: verifsim.NewTape(uint64(g.n(1<<30)), 1<<16)}
-	c := &svcClient{st: st, g: g, outstanding: map[uint32]string{}, responses: map[uint32]interface{}{}, svcOpen: map[uint32]bool{}, disposedAck: map[int]bool{}, ctxReady: map[int]bool{}}
+	c := &svcClient{st: st, g: g, outstanding: map[uint32]string{}, responses: map[uint32]interface{}{}, svcOpen: map[uint32]bool{}, disposedAck: map[int]bool{}, ctxReady: map[int]bool{}, root: p.Root}
 
 	entries := []interface{}{}
 	for _, e := range p.EntryPaths() {
@@ -457,6 +466,17 @@ func scenarioC20Service(rc *RunCtx) *Violation {
 					c.request("analyze-metafile", map[string]interface{}{"command": "analyze-metafile", "metafile": `{"inputs":{},"outputs":{}}`, "color": false, "verbose": false})
 				}
 				desc = append(desc, "misc")
+				if len(contexts) > 0 && !abrupt && g.n(2) == 0 {
+					// (graceful sessions only: a watching context that nobody disposes polls forever)
+					k := contexts[g.n(len(contexts))]
+					c.request(fmt.Sprintf("watch key=%d", k), map[string]interface{}{"command": "watch", "key": k})
+					desc = append(desc, fmt.Sprintf("watch(%d)", k))
+					// an edit that a watching context will pick up
+					m := p.Mods[0]
+					m.Version++
+					d.PutFile(p.Root+"/"+m.Path, []byte(p.RenderModule(m)), false)
+					verifsim.Sleep(300 * time.Millisecond)
+				}
 			case 9:
 				if len(contexts) > 0 {
 					k := contexts[g.n(len(contexts))]
@@ -525,7 +545,7 @@ func scenarioC20Service(rc *RunCtx) *Violation {
 		txt := panicText(s)
 		// After an abrupt EOF the service may legitimately wait forever for answers
 		// the host can no longer send, or for contexts nobody disposed.
-		if abrupt && strings.Contains(txt, "deadlock") {
+		if abrupt && (strings.Contains(txt, "deadlock") || strings.Contains(txt, "step budget")) {
 			rc.Probe("service_waits_after_abrupt_eof")
 			return nil
 		}
